@@ -455,14 +455,16 @@ void harness(void)
 #endif
 
 #ifdef U_SEQ
-/* BOUNDED sequential stand-in (never counted as proof): one thread, no interference; every sequence of NOPS = 4
- * operations over push_left / push_right / pop_left / pop_right (shorter sequences are its prefixes: everything is
- * asserted after each operation), followed by a drain from nondeterministically chosen ends.  Reference model: an array
- * window model[lo, hi). */
+/* BOUNDED sequential stand-in (never counted as proof): one thread, no interference.  ALL 4^NOPS operation sequences of
+ * length NOPS = 4 over push_left / push_right / pop_left / pop_right are enumerated (the operation codes are concrete, the
+ * pushed values symbolic); every assertion is made after each operation, so all shorter sequences are covered as
+ * prefixes.  Each sequence is followed by a drain that pops from nondeterministically chosen ends (a shorter sequence
+ * followed by its drain is a prefix of one of these runs).  Reference model: an array window model[lo, hi). */
 #ifndef NOPS
 #define NOPS 4
 #endif
-void harness(void)
+static bool g_seen_four, g_seen_both_ends, g_seen_emptied;
+static void run_sequence(unsigned code)
 {
   init_ghosts();
   g_quiescent = true;
@@ -476,7 +478,7 @@ void harness(void)
   bool used_left = false, used_right = false;
   for (int i = 0; i < NOPS; i++)
   {
-    uint8_t op = nondet_u8();
+    unsigned op = (code >> (2 * i)) & 3u;
     T v = nondet_int(), out = 0;
     bool ok;
     lin = false; g_retired = 0; g_own = NULL; g_allocs = 0;
@@ -498,21 +500,19 @@ void harness(void)
       VX_ASSERT(ok == (lo < hi), "pop_left on a non-empty quiescent deque succeeds, on an empty one it fails");
       if (ok) { VX_ASSERT(out == model[lo], "pop_left returns the leftmost element (push_left;pop_left = LIFO, push_right;pop_left = FIFO): nothing invented"); lo++; }
     }
-    else if (op == 3)
+    else
     {
       ok = pop_right(&g_q, &out);
       VX_ASSERT(ok == (lo < hi), "pop_right on a non-empty quiescent deque succeeds, on an empty one it fails");
       if (ok) { VX_ASSERT(out == model[hi - 1], "pop_right returns the rightmost element (push_right;pop_right = LIFO, push_left;pop_right = FIFO): nothing invented"); hi--; }
     }
-    else
-      break;
     VX_ASSERT(empty(&g_q) == (lo == hi), "empty() iff the model is empty");
     VX_ASSERT(g_q.anchor_.ltag == stable, "a completed operation leaves the quiescent deque stable");
     VX_ASSERT(g_nfree == NPOOL - (hi - lo), "exactly the nodes of the elements in the deque are allocated");
   }
-  if (hi - lo == NOPS) VX_REACH("four_elements");
-  if (hi - lo == NOPS && used_left && used_right) VX_REACH("pushed_at_both_ends");
-  if (lo == hi && used_left) VX_REACH("emptied_by_pops");
+  if (hi - lo == NOPS) g_seen_four = true;
+  if (hi - lo == NOPS && used_left && used_right) g_seen_both_ends = true;
+  if (lo == hi && used_left) g_seen_emptied = true;
   /* drain */
   for (int k = 0; k < NOPS; k++)
   {
@@ -539,6 +539,15 @@ void harness(void)
     lin = false; g_retired = 0;
     VX_ASSERT(!pop_left(&g_q, &out) && !pop_right(&g_q, &out), "pops on the drained deque fail");
   }
-  VX_REACH("drained");
+}
+void harness(void)
+{
+  g_seen_four = false; g_seen_both_ends = false; g_seen_emptied = false;
+  for (unsigned code = 0; code < (1u << (2 * NOPS)); code++)
+    run_sequence(code);
+  if (g_seen_four) VX_REACH("four_elements");
+  if (g_seen_both_ends) VX_REACH("pushed_at_both_ends");
+  if (g_seen_emptied) VX_REACH("emptied_by_pops");
+  VX_REACH("all_sequences_drained");
 }
 #endif
